@@ -471,8 +471,9 @@ func pause(code int) {
 
 func TestReplay(t *testing.T) {
 	kit.Replay(t, map[string]kit.Replayer{
-		"script": replayScript,
-		"race":   replayRace,
-		"churn":  replayChurn,
+		"script":    replayScript,
+		"race":      replayRace,
+		"churn":     replayChurn,
+		"readysend": replayReadySend,
 	})
 }
